@@ -244,6 +244,20 @@ func (p *eparser) postfix(n *Node) *Node {
 		switch {
 		case p.accept("."):
 			t := p.next()
+			if t.k == "op" && t.v == "(" && p.peek().k == "op" && p.peek().v == "*" {
+				// @pkg.(*T).M inside last()/called(): keep "(*T)" as a selector name
+				p.next()
+				id := p.next()
+				p.expect(")")
+				n = &Node{Kind: "sel", Val: "(*" + id.v + ")", Args: []*Node{n}}
+				continue
+			}
+			if t.k == "op" && t.v == "(" && p.peek().k == "id" {
+				id := p.next()
+				p.expect(")")
+				n = &Node{Kind: "sel", Val: "(" + id.v + ")", Args: []*Node{n}}
+				continue
+			}
 			if t.k != "id" && t.k != "int" {
 				panic(fmt.Errorf("bad selector %q", t.v))
 			}
